@@ -90,23 +90,41 @@ macro("c07_pair", ["w", "i", "n", "a", "b"],
 
 _WROW = "sumto({k}, lambda k: c07_pair(regularization_weights, {i}, neighbors[{i}, k], a, b))"
 _WALL = "sumto({n}, lambda s: " + _WROW.format(i="s", k="neighbors_sizes[s]") + ")"
+# closed entrywise form (the w_a^2 + w_b^2 pair weights of the statement).  wm(a, b) = sum over the occurrences of b in a's
+# neighbour list of w_b^2 (= w_b^2 mult(a, b)); win(b) = sum_s wm(s, b) (= w_b^2 * in-degree of b); nw(a) = sum_{n in N(a)} w_n^2:
+#   H[a, b] = -wm(a, b) - wm(b, a) + [a == b] (1e-8 + nw(a) + win(a))
+# i.e. for a symmetric simple table H[a, b] = -(w_a^2 + w_b^2) on neighbours and H[a, a] = 1e-8 + sum_{n in N(a)} (w_a^2 + w_n^2)
+macro("c07_nw", ["w", "nb", "a", "k"], "sumto(k, lambda t: w[nb[a, t]] * w[nb[a, t]])",
+      py=lambda w, nb, a, k: float(sum(w[nb[a, t]] ** 2 for t in range(int(k)))))
+macro("c07_wm", ["w", "nb", "a", "b", "k"], "sumto(k, lambda t: (w[nb[a, t]] * w[nb[a, t]] if nb[a, t] == b else 0))",
+      py=lambda w, nb, a, b, k: float(sum(w[nb[a, t]] ** 2 for t in range(int(k)) if nb[a, t] == b)))
+macro("c07_win", ["w", "nb", "sz", "b", "n"], "sumto(n, lambda s: c07_wm(w, nb, s, b, sz[s]))",
+      py=lambda w, nb, sz, b, n: float(sum(w[nb[s, t]] ** 2 for s in range(int(n)) for t in range(int(sz[s])) if nb[s, t] == b)))
+_WC = ("-(c07_wm(w, neighbors, a, b, neighbors_sizes[a]) if a < {i} else 0) - (c07_wm(w, neighbors, b, a, neighbors_sizes[b]) if b < {i} else 0)"
+       " + ((1e-08 + c07_nw(w, neighbors, a, neighbors_sizes[a]) if a < {i} else 0) + c07_win(w, neighbors, neighbors_sizes, a, {i}) if a == b else 0)")
+_WCJ = (" - (c07_wm(w, neighbors, i, b, j) if a == i else 0) - (c07_wm(w, neighbors, i, a, j) if b == i else 0)"
+        " + ((1e-08 + c07_nw(w, neighbors, i, j) if a == i else 0) + c07_wm(w, neighbors, i, a, j) if a == b else 0)")
+_WM = "forall(0, P, lambda a: forall(0, P, lambda b: regularization_matrix[a, b] == "
 contract(
     U + "weighted_regularization_matrix_from", props=["C07"],
     types={"regularization_weights": "real[1]", "neighbors": "int[2]", "neighbors_sizes": "int[1]"}, returns="real[2]",
-    let={"P": "regularization_weights.shape[0]"}, requires=["neighbors.shape[0] == P"] + _nb(),
+    let={"P": "regularization_weights.shape[0]", "w": "regularization_weights"}, requires=["neighbors.shape[0] == P"] + _nb(),
     ensures=["result.shape[0] == P and result.shape[1] == P",
              "forall(0, P, lambda a: forall(0, P, lambda b: result[a, b] == (1e-08 if a == b else 0) + " + _WALL.format(n="P") + "))",
-             "forall(0, P, lambda a: forall(0, P, lambda b: result[a, b] == result[b, a]))"],
+             "forall(0, P, lambda a: forall(0, P, lambda b: result[a, b] == result[b, a]))",
+             "forall(0, P, lambda a: forall(0, P, lambda b: result[a, b] == " + _WC.format(i="P") + "))"],
     loops={
-        0: {"inv": ["forall(0, P, lambda a: forall(0, P, lambda b: regularization_matrix[a, b] == (1e-08 if a == b and a < i else 0) + " + _WALL.format(n="i") + "))",
-                    "forall(0, P, lambda a: forall(0, P, lambda b: regularization_matrix[a, b] == regularization_matrix[b, a]))"]},
-        1: {"inv": ["forall(0, P, lambda a: forall(0, P, lambda b: regularization_matrix[a, b] == (1e-08 if a == b and a <= i else 0) + " + _WALL.format(n="i")
-                    + " + " + _WROW.format(i="i", k="j") + "))",
-                    "forall(0, P, lambda a: forall(0, P, lambda b: regularization_matrix[a, b] == regularization_matrix[b, a]))"],
+        0: {"inv": [_WM + "(1e-08 if a == b and a < i else 0) + " + _WALL.format(n="i") + "))",
+                    "forall(0, P, lambda a: forall(0, P, lambda b: regularization_matrix[a, b] == regularization_matrix[b, a]))",
+                    _WM + _WC.format(i="i") + "))"]},
+        1: {"inv": [_WM + "(1e-08 if a == b and a <= i else 0) + " + _WALL.format(n="i") + " + " + _WROW.format(i="i", k="j") + "))",
+                    "forall(0, P, lambda a: forall(0, P, lambda b: regularization_matrix[a, b] == regularization_matrix[b, a]))",
+                    _WM + _WC.format(i="i") + _WCJ + "))"],
             "assert_at": {1: ["regularization_weight[neighbor_index] == regularization_weights[neighbor_index] * regularization_weights[neighbor_index]"]}},
     },
     sentence={"sumto": "H = 1e-8 I + sum_i sum_{n in N(i)} w_n^2 (e_i - e_n)(e_i - e_n)^T, i.e. pair (i,j) weighted by w_i^2 + w_j^2 for a symmetric table",
-              "result[b, a]": "the weighted matrix is symmetric for every neighbour table"},
+              "result[b, a]": "the weighted matrix is symmetric for every neighbour table",
+              "c07_win": "H[a,b] = -(w_b^2 mult(a,b) + w_a^2 mult(b,a)), H[a,a] = 1e-8 + sum_{n in N(a)} w_n^2 + w_a^2 indeg(a) (minus the self-loop terms)"},
 )
 
 # ---------------------------------------------------------------------------------------------------- weights, brightness-zeroth
